@@ -66,6 +66,32 @@ CHECKS.update({
         ref="4/C17"),
 })
 
+CHECKS.update({
+    "C01": dict(
+        technique="static analysis: sibling agreement of frame pop sites, match-arm call-graph reachability for coercions, emit/handle pairing between compiler and VM, type walk of the property container, opcode table coverage",
+        text="Decides five structural necessary conditions of conformance (not the value of any operator): trampoline frame pop "
+             "sites restore the same VM fields; operator arms convert register operands through the hook-aware coercion; "
+             "break/continue/return pop block scopes on exactly one side; the own-property container is insertion ordered; "
+             "every opcode is emitted, handled and (for jumps) patched. Today's deviations are genuine and listed with failing "
+             "programs; the frame-restore defect was repaired (fix: commit).",
+        ref="4/C01"),
+    "C08": dict(
+        technique="static analysis: operand provenance + dominance templates on StepResult constructions, who-may-write table for the ledger, must-pass-through in step(), per-variant sibling comparison of the result mappers",
+        text="Decides the ledger-discipline clauses exactly: every Suspended result moves the pending/cancelled ledgers out with "
+             "mem::take (or is built where the ledger is known empty), Complete is built only on the nothing-outstanding edges, "
+             "order ids are fresh, only designated functions touch the ledger, step() re-checks settled promises before taking "
+             "a ready context, and the two result mappers agree per VmResult variant. Protocol-history clauses (progress, "
+             "combinator settlement) are not decided.",
+        ref="4/C08"),
+    "C19": dict(
+        technique="static analysis: sibling comparison of transitive effect signatures (field writes, ledger takes, constructions) on corresponding CFG fragments: match arms of shared enums, dominating regions",
+        text="Decides sibling agreement on corresponding fragments: the two VmResult->StepResult mappers per variant, outcome "
+             "classes of every VmResult consumer per role, the ModuleExport finalisers per variant, the frame pop sites, and the "
+             "tsrun_step/tsrun_run wrappers. The module-role disagreement (a dependency whose body suspends fails, the entry "
+             "module suspends) is genuine and listed with failing programs. Equality of results is not decided.",
+        ref="4/C19"),
+})
+
 NOT_APPLICABLE = {
     "C04": "value equivalence with the TypeScript emit; no structural mechanism exists (DESIGN.md 4/C04)",
     "C09": "behaviour of a fixed-point loader over all graphs x schedules; structural parts are decided under C02/C19",
